@@ -179,6 +179,7 @@ func (f *c19Fix) runSigned(t c19Tx) (urls []string, code uint32, ok bool) {
 	if err != nil {
 		return nil, 0, false
 	}
+	f.lastBz = bz
 	res, err := f.a.CheckTx(&abci.RequestCheckTx{Tx: bz, Type: abci.CheckTxType_New})
 	if err != nil {
 		return nil, 0, false
